@@ -527,10 +527,9 @@ structure A64In (g : Frame) : Prop where
   /-- the link register is callee-saved (x29 need not be: fixes/C07-5) -/
   presLr : (g.preserved 0).testBit 30 = true
   pres23 : ∀ gi, 2 ≤ gi → g.preserved gi = 0
-  /-- excludes the open finding: no dynamic alignment … -/
-  align : g.natAlign = 16 ∧ g.finalAlign = 16 ∧ g.minDynAlign = 32
-  /-- … and no stack-argument base register other than `sp` or the preserved frame pointer (fixes/C07-7) -/
-  sa : g.saRegId = 0xFF ∨ g.saRegId = 31 ∨ (g.saRegId = 29 ∧ g.hasFP = true)
+  nat : g.natAlign = 16 ∧ g.minDynAlign = 32 ∧ 16 ≤ g.finalAlign
+  /-- SA register unset, `sp`, or any of x0 … x30 -/
+  sa : g.saRegId = 0xFF ∨ g.saRegId ≤ 31
   cleanup : g.calleeCleanup = 0
 
 theorem a64_wf_of_finalize (g : Frame) (hin : LayoutIn g) (ha : A64In g) : A64WF g.finalize := by
@@ -539,24 +538,30 @@ theorem a64_wf_of_finalize (g : Frame) (hin : LayoutIn g) (ha : A64In g) : A64WF
   obtain ⟨s0a, s0b⟩ := ha.sr0
   obtain ⟨s1a, s1b⟩ := ha.sr1
   obtain ⟨s2a, s3a, s2b, s3b⟩ := ha.sr23
-  obtain ⟨hN, hA, hM⟩ := ha.align
+  obtain ⟨hN, hM, hA16⟩ := ha.nat
+  obtain ⟨k, hk7, hA⟩ := hin.kA
+  have hk4 : 4 ≤ k := by
+    rw [hA] at hA16
+    exact (Nat.pow_le_pow_iff_right (by omega)).mp (show 2 ^ 4 ≤ 2 ^ k from hA16)
   have hsp : g.arch.spId = 31 := by rw [harch]; rfl
   have hlr : g.arch.lrId = some 30 := by rw [harch]; rfl
   have hfpid : g.arch.fpId = 29 := by rw [harch]; rfl
-  have hnda : g.hasDA = false := by unfold Frame.hasDA; rw [hM, hA]; decide
+  have hdaDef : g.hasDA = decide (32 ≤ g.finalAlign) := by unfold Frame.hasDA; rw [hM]
   have hras : g.fin1.retAddrSize = 0 := by unfold Frame.retAddrSize; simp only [Frame.fin1, hlr]; rfl
-  have hsaC : g.saC = 31 ∨ (g.saC = 29 ∧ g.hasFP = true) := by
+  have hsaC : g.saC ≤ 31 ∧ (g.hasDA = true → g.saC ≠ 31) := by
     unfold Frame.saC
-    simp only [hsp, hnda, Bool.false_eq_true, false_and, if_false]
-    rcases ha.sa with h | h | ⟨h, hfp⟩
-    · rw [h]; simp
-    · rw [h]; simp
-    · rw [h]; simp [hfp]
-  have hsaId : g.fin1.saRegId = 31 ∨ (g.fin1.saRegId = 29 ∧ g.hasFP = true) := by
-    show u8 g.saC = 31 ∨ (u8 g.saC = 29 ∧ _)
-    rcases hsaC with h | ⟨h, hfp⟩ <;> rw [h]
-    · exact Or.inl rfl
-    · exact Or.inr ⟨rfl, hfp⟩
+    simp only [hsp, hfpid]
+    rcases ha.sa with h | h
+    · rw [h]; simp only [if_true]
+      cases g.hasDA <;> simp
+    · by_cases h255 : g.saRegId = 255
+      · omega
+      · rw [if_neg h255]
+        by_cases h31 : g.saRegId = 31
+        · rw [h31]; cases g.hasDA <;> simp
+        · have : ¬ (g.hasDA = true ∧ g.saRegId = 31) := fun hh => h31 hh.2
+          rw [if_neg this]; exact ⟨h, fun _ => h31⟩
+  have hsaId : g.fin1.saRegId = g.saC := Nat.mod_eq_of_lt (by omega)
   have hd0 : g.fin1.dirty 0 = u32 g.dirty0C := rfl
   have hdirtyFp : g.hasFP = true → (g.fin1.dirty 0).testBit 29 = true ∧ (g.fin1.dirty 0).testBit 30 = true := by
     intro hfp
@@ -652,19 +657,42 @@ theorem a64_wf_of_finalize (g : Frame) (hin : LayoutIn g) (ha : A64In g) : A64WF
   have hpp16 : g.finalize.ppSize % 16 = 0 := by
     rw [hpp, i1]
     rcases s1a with h | h <;> rw [show g.finalize.srSize 1 = g.srSize 1 from rfl, h] <;> omega
-  have hdaOff : g.finalize.daOff = invalidOff := by
-    show (if g.fin1.daSlotC then _ else invalidOff) = invalidOff
-    have : g.fin1.daSlotC = false := by show (g.hasDA && !g.hasFP) = false; rw [hnda]; rfl
-    rw [this]; rfl
+  have hdaOffDef : g.finalize.daOff = if g.fin1.daSlotC then u32 (g.fin1.xOffC + g.fin1.xSizeC) else invalidOff := rfl
+  have hslot : g.fin1.daSlotC = (g.hasDA && !g.hasFP) := rfl
   obtain ⟨hsm1, hsm2⟩ := lay.small
   rw [hras] at hsm1
-  obtain ⟨ap1, ap2⟩ := lay.adjPlain hnda
-  rw [hras] at ap2
   have hal := lay.aligned (Or.inr (Or.inr (Or.inr hras)))
   rw [hras] at hal
-  have hA' : g.fin1.finalAlign = 16 := hA
-  rw [hA'] at hal
   have htot := lay.total
+  have hinv : invalidOff = 4294967295 := rfl
+  have exo : g.finalize.xOff = g.fin1.xOffC := rfl
+  have exs : g.finalize.xSize = g.fin1.xSizeC := rfl
+  have hxs0 : g.fin1.xSizeC = 0 := hxs
+  have hdaIff : g.finalize.daOff ≠ invalidOff ↔ (g.hasDA = true ∧ g.hasFP = false) := by
+    rw [hdaOffDef, hslot]
+    constructor
+    · intro h
+      cases h1 : g.hasDA with
+      | false => rw [h1] at h; exact absurd rfl h
+      | true =>
+        cases h2 : g.hasFP with
+        | true => rw [h1, h2] at h; exact absurd rfl h
+        | false => exact ⟨rfl, rfl⟩
+    · rintro ⟨h1, h2⟩
+      intro hbad
+      have h3 := lay.noDaSlot (by rw [hdaOffDef, hslot]; exact hbad)
+      rw [exo, exs] at h3
+      simp only [h1, h2, Bool.not_false, Bool.and_self, if_true] at hbad
+      unfold u32 at hbad
+      rw [Nat.mod_eq_of_lt (by omega)] at hbad
+      omega
+  have hlocalPP : g.finalize.localEnd ≤ g.finalize.ppOff := by
+    have h1 := lay.localFits
+    show g.finalize.localOff + g.finalize.localSize ≤ g.finalize.ppOff
+    have e : g.finalize.localSize = g.fin1.localSize := rfl
+    by_cases hd : g.finalize.daOff = invalidOff
+    · have h2 := lay.noDaSlot hd; omega
+    · have h2 := lay.daSlot hd; omega
   have hkeys_mem : ∀ gi r, (gi, r) ∈ keysOf (a64Items g.finalize) ↔
       ((gi = 0 ∧ r ∈ bitsAsc (g.finalize.saved 0) 32) ∨ (gi = 1 ∧ r ∈ bitsAsc (g.finalize.saved 1) 32)) := by
     intro gi r
@@ -680,11 +708,19 @@ theorem a64_wf_of_finalize (g : Frame) (hin : LayoutIn g) (ha : A64In g) : A64WF
       · right; exact ⟨r, hr, by rw [e1]⟩
   exact {
     arch := harch
-    noDA := hnda
-    sa := by
-      rcases hsaId with h | ⟨h, hfp⟩
-      · exact Or.inl h
-      · exact Or.inr ⟨h, by rw [hfinFP]; exact hfp⟩
+    kA := ⟨k, hk4, hk7, hA⟩
+    nat := hN
+    saValid := by show g.fin1.saRegId ≤ 31; rw [hsaId]; exact hsaC.1
+    saDA := fun h => by show g.fin1.saRegId ≠ 31; rw [hsaId]; exact hsaC.2 h
+    saDirty := fun h => by
+      have h' : g.fin1.saRegId ≠ 31 := h
+      rw [hsaId] at h'
+      show (g.fin1.dirty 0).testBit g.fin1.saRegId = true
+      rw [hsaId, hd0, tb_u32 _ _ (by have := hsaC.1; omega)]
+      unfold Frame.dirty0C
+      simp only [hsp]
+      rw [if_pos h']
+      exact tb_or_bit _ _
     saOffSa := by
       show g.fin1.saOffSaC = g.fin1.ppSizeC
       unfold Frame.saOffSaC
@@ -695,17 +731,38 @@ theorem a64_wf_of_finalize (g : Frame) (hin : LayoutIn g) (ha : A64In g) : A64WF
       have := Nat.mod_lt (g.fin1.saveSizeSum true) (show 0 < 2 ^ 16 by omega)
       rw [Nat.mod_eq_of_lt (by omega)]
     fpFirst := i9
-    align := ⟨hA, hN⟩
     cleanup := ha.cleanup
-    localFits := by
+    localFits := hlocalPP
+    da := fun h => by
+      obtain ⟨d1, d2⟩ := lay.daSlot h
+      rw [show g.fin1.srSize 0 = 8 from s0a] at d2
       have h1 := lay.localFits
-      have h2 := lay.noDaSlot hdaOff
-      show g.finalize.localOff + g.finalize.localSize ≤ g.finalize.ppOff
-      have : g.finalize.localSize = g.fin1.localSize := rfl
+      refine ⟨?_, d2⟩
+      show g.finalize.localOff + g.finalize.localSize ≤ g.finalize.daOff
+      have e : g.finalize.localSize = g.fin1.localSize := rfl
       omega
-    adj := ⟨ap1, by rw [ap1]; omega⟩
-    total := ⟨htot, by rw [ap2, Nat.add_zero]⟩
-    pei := ⟨hpp.symm, hpp16, hsm1⟩
+    daIff := by rw [hfinFP]; exact hdaIff
+    adjPlain := fun hnda => by
+      have hnda' : g.hasDA = false := hnda
+      obtain ⟨ap1, ap2⟩ := lay.adjPlain hnda'
+      rw [hras] at ap2
+      have hA4 : g.finalAlign = 16 := by
+        rw [hdaDef] at hnda'
+        simp only [decide_eq_false_iff_not, Nat.not_le] at hnda'
+        rw [hA] at hnda' ⊢
+        rw [pow2_between 4 k (by rw [hA] at hA16; exact hA16) (by omega)]
+      have hA' : g.fin1.finalAlign = 16 := hA4
+      rw [hA'] at hal
+      exact ⟨ap1, by rw [ap1]; omega, by rw [ap2, Nat.add_zero], hA4⟩
+    adjDA := fun hda => by
+      obtain ⟨a1, a2, a3⟩ := lay.adjDA hda
+      refine ⟨a1, a2, ?_, a3⟩
+      show g.fin1.saOffSpC = invalidOff
+      unfold Frame.saOffSpC
+      have : g.fin1.hasDA = true := hda
+      simp only [this, if_true]
+    total := htot
+    pei := ⟨hpp.symm, hpp16, hsm1, hsm2⟩
     first := fun it rest h => by
       have hoff := i4 it rest h
       have hasc := i2
@@ -757,34 +814,35 @@ theorem a64_wf_of_finalize (g : Frame) (hin : LayoutIn g) (ha : A64In g) : A64WF
       rw [this, ha.pres23 gi hgi, Nat.and_zero]
   }
 
-/-- **C07 on AArch64, partial** (excludes exactly the open finding: dynamic alignment / SA register).
-For every frame handed to `finalize` under `LayoutIn`, `A64In`, every entry state (`sp` 16-byte aligned,
-return address in x30, room for the frame) and EVERY confined body: `stp/str` with the pre-indexed first
-pair, optional `mov x29, sp`, `sub sp`; then `add sp`, `ldp/ldr` in reverse with the post-indexed last pair
-and `ret x30` return to the entry x30 with `sp` = entry `sp` and every callee-saved x/v register restored in
-the bytes the convention declares (8 or 16 for vectors). -/
-theorem a64_prolog_body_epilog_partial (g : Frame) (hin : LayoutIn g) (ha : A64In g) (pro epi : List Instr)
+/-- **C07 on AArch64** (full strength; with fixes/C07-8.patch the prolog / epilog implement dynamic alignment and the
+SA register, so the former open finding C07-a64-dynalign is gone). For every frame handed to `finalize` under
+`LayoutIn`, `A64In` (any alignment up to 128, any SA register x0 … x30 or `sp`), every entry state (`sp` 16-byte aligned,
+return address in x30, room for the frame) and EVERY confined body: `stp/str` with the pre-indexed first pair, optional
+`mov x29, sp`, `mov xSA, sp`, `and sp, xSA, #-align`, `sub sp` around the store to the DA slot; then `mov sp, x29` or
+`add sp; ldr xSA; mov sp, xSA` or `add sp`, `ldp/ldr` in reverse with the post-indexed last pair and `ret x30`
+return to the entry x30 with `sp` = entry `sp`, every callee-saved x/v register restored in the bytes the convention
+declares, the promised body alignment and the stack arguments at `sa_reg + sa_offset`. -/
+theorem a64_prolog_body_epilog (g : Frame) (hin : LayoutIn g) (ha : A64In g) (pro epi : List Instr)
     (hpro : a64Prolog g.finalize = some pro) (hepi : a64Epilog g.finalize = some epi) (s0 : St)
-    (hentry : entryOk g.finalize s0 = true) (hroom : g.finalize.finalSize ≤ s0.gp 31) (hlr : s0.gp 30 < 256 ^ 8) :
+    (hentry : entryOk g.finalize s0 = true) (hroom : g.finalize.finalSize + 2 * g.finalAlign ≤ s0.gp 31)
+    (hbits : s0.gp 31 < 2 ^ 64) (hlr : s0.gp 30 < 256 ^ 8) :
     ∃ s1, run .a64 pro s0 = some s1 ∧ s1.ret = none
       ∧ bodyEntryOk g.finalize s0 s1 = true
       ∧ (∀ x, s0.gp 31 ≤ x → s1.mem x = s0.mem x)
       ∧ ∀ s2, BodyOK g.finalize (s0.gp 31) s1 s2 →
           ∃ s3, run .a64 epi s2 = some s3 ∧ exitOk g.finalize s0 s3 = true ∧ s3.mem = s2.mem :=
-  a64_main g.finalize (a64_wf_of_finalize g hin ha) pro epi hpro hepi s0 hentry hroom hlr
+  a64_main g.finalize (a64_wf_of_finalize g hin ha) pro epi hpro hepi s0 hentry hroom hbits hlr
 
-/-- the witness frame of the open finding: cdecl, x19 and v8 dirty, 100 bytes of locals aligned to 64 -/
+/-- the witness frame of the former open finding: cdecl, x19 and v8 dirty, 100 bytes of locals aligned to 64 -/
 def a64WitnessFrame : Frame :=
   (((Frame.init ((initCallConv .a64 0 false).get (by decide)) (tbl4 0x80000 0x100 0 0) 0).setLocalSize 100).setLocalAlign 64).finalize
 
-/-- **negation at the witness** (open finding C07-a64-dynalign): the frame reports dynamic alignment, final
-alignment 64, x29 as SA register and an invalid `sa_offset_from_sp`; yet after the prolog `sp % 64 = 32` for
-the entry stack 0x40000000 and x29 still holds the caller's value. -/
-theorem a64_dynalign_witness :
+/-- the former witness now behaves: the frame reports dynamic alignment 64 with x29 as SA register, and after the
+repaired prolog `sp % 64 = 0` for the entry stack 0x40000000 and x29 + `sa_offset_from_sa` is the entry `sp` -/
+theorem a64_dynalign_repaired :
     a64WitnessFrame.hasDA = true ∧ a64WitnessFrame.saRegId = 29 ∧ a64WitnessFrame.finalAlign = 64
-    ∧ a64WitnessFrame.saOffSp = invalidOff
     ∧ (run .a64 ((a64Prolog a64WitnessFrame).getD []) (initState .a64 0x40000000)).map
-        (fun s1 => (s1.gp 31 % 64, decide (s1.gp 29 = initGp 29))) = some (32, true) := by
+        (fun s1 => (s1.gp 31 % 64, s1.gp 29 + a64WitnessFrame.saOffSa)) = some (0, 0x40000000) := by
   decide
 
 /-- every built-in AArch64 calling convention yields a frame satisfying `A64In` -/
@@ -817,8 +875,8 @@ theorem a64In_init (id : Nat) (win : Bool) (ci : CallConvInfo) (used : Nat → N
       · by_cases h3 : gi = 3
         · rw [h3]; exact k13
         · exact k14 gi (by omega)
-    align := by
-      show u8 ci.natAlign = 16 ∧ u8 ci.natAlign = 16 ∧ u8 (u32 (ci.natAlign * 2)) = 32
+    nat := by
+      show u8 ci.natAlign = 16 ∧ u8 (u32 (ci.natAlign * 2)) = 32 ∧ 16 ≤ u8 ci.natAlign
       rw [k15]; decide
     sa := Or.inl rfl
     cleanup := by show (if ci.calleePops then _ else 0) = 0; rw [k16]; rfl
@@ -856,11 +914,11 @@ example : ∃ s1, run .a64 ((a64Prolog exA64.finalize).getD []) (initState .a64 
   have hin : A64In exA64 := by
     have h := a64In_init 0 false _ (tbl4 0x380000 0x100 0 0) 0 rfl
     exact { arch := h.arch, sr0 := h.sr0, sr1 := h.sr1, sr23 := h.sr23, presSp := h.presSp, presLr := h.presLr,
-            pres23 := h.pres23, align := ⟨by decide, by decide, by decide⟩, sa := Or.inl rfl, cleanup := h.cleanup }
-  obtain ⟨s1, h1, h2, h3, _, h5⟩ := a64_prolog_body_epilog_partial exA64
+            pres23 := h.pres23, nat := ⟨by decide, by decide, by decide⟩, sa := Or.inl rfl, cleanup := h.cleanup }
+  obtain ⟨s1, h1, h2, h3, _, h5⟩ := a64_prolog_body_epilog exA64
     ⟨⟨4, by decide, by decide⟩, ⟨3, by decide, by decide⟩, by decide, by decide⟩ hin
     ((a64Prolog exA64.finalize).getD []) ((a64Epilog exA64.finalize).getD []) (by decide) (by decide)
-    (initState .a64 0x40000000) (by decide) (by decide) (by decide)
+    (initState .a64 0x40000000) (by decide) (by decide) (by decide) (by decide)
   refine ⟨s1, h1, h2, h3, fun s2 hb => ?_⟩
   obtain ⟨s3, e1, e2, _⟩ := h5 s2 hb
   exact ⟨s3, e1, e2⟩
